@@ -2,7 +2,7 @@
 from genlib import *
 
 LEAN_MODULES = ["MpirProofs.Props.C09Rootrem"]
-THEOREMS = []
+THEOREMS = ["Mpir.Rootrem.rootrem_basecase_spec", "Mpir.Rootrem.rootrem_basecase_spec_threshold"]
 PINS = [("mpn/generic/rootrem_basecase.c", "mpn_rootrem_basecase"), ("mpn/generic/pow_1.c", "mpn_pow_1")]
 TRUSTED = ["hand-written model lean/Mpir/Model/Rootrem.lean: mpn_rootrem_basecase at value + limb-count level "
            "(every value, every limb count a test reads, every branch and ASSERT_ALWAYS in source order; buffer capacities "
